@@ -151,9 +151,21 @@ def run_case(ck, desc):
                 ck.violation("vanishes-for-pressure-independent-tables", {"c": got[:3], "storage": S[:3]}, desc)
             nontrivial = bool(np.all(S != 0))
         else:
-            e = float(np.max(np.abs(got - want) / np.abs(want)))
+            # the three phase terms can cancel (oil slope negative, gas positive): the central
+            # difference is exact for 1/B linear in p, what is left is the rounding of its two storage
+            # values, so the error is measured against the SUM OF THE MAGNITUDES of the terms plus the
+            # rounding of the storage itself - not against a net value that cancellation made small
+            # (sweep #5, seed 32: 1.6e-7 of a net 7.6e-7 that was 4 % of its largest term)
+            mag = phi * (
+                np.abs(ro) * ((np.abs(Rv1 * bg) + np.abs(pvt["Rv"](p) * dbg)) * Sg + So * np.abs(dbo))
+                + np.abs(rg) * ((np.abs(Rs1 * bo) + np.abs(pvt["Rs"](p) * dbo)) * So + Sg * np.abs(dbg))
+                + np.abs(rw) * Sw * np.abs(dbw)
+            )
+            den = mag + 1e-7 * np.abs(S)
+            e = float(np.max(np.abs(got - want) / den))
+            ck.note_max("analytic derivative: largest cancellation (sum of magnitudes / |net|)", float(np.max(mag / np.abs(want))))
             if not ck.margin("analytic derivative (linear 1/B)", e, 1e-7):
-                k = int(np.argmax(np.abs(got - want) / np.abs(want)))
+                k = int(np.argmax(np.abs(got - want) / den))
                 ck.violation("equals-analytic-pressure-derivative", {"family": fam, "got": got[k], "want": want[k], "rel": e, "vaporised_oil": desc["vaporised_oil"]}, desc)
             nontrivial = bool(np.all(want != 0))
             ck.count("states_with_negative_storage_derivative", int(np.sum(want < 0)))
